@@ -702,7 +702,7 @@ func TestVerifC06(t *testing.T) {
 	}
 
 	// ---- random policies × random / mutated covert strings
-	n := vlib.Budget(6000, 150000)
+	n := vlib.Budget(6000, 600000)
 	var pp *c06Parsed
 	for i := 0; i < n; i++ {
 		if i%40 == 0 {
